@@ -59,8 +59,9 @@ _c("C09",
 _c("C14",
    "Bounded model checking of the real RetryPolicy::execute state machine driven by a minimal executor with a virtual clock "
    "(cfg(kani) sleep recorder): symbolic policy (incl. arbitrary f64 multipliers) and symbolic outcome sequences; assertions on "
-   "attempt count, stop conditions, and every recorded delay.",
-   "max_attempts <= 3 (quick) / 5 (thorough); jitter draw symbolic in [0,0.3); from_env string parsing and the CDN status mapping as listed per harness.")
+   "attempt count, stop conditions, and every recorded delay; plus the Retry-After hint parser (parse_retry_after) on a real "
+   "reqwest::Response with a symbolic header value against a reference decimal parser.",
+   "Retry-After value <= 6 bytes (url::Url::parse stubbed); max_attempts <= 3 (quick) / 5 (thorough); jitter draw symbolic in [0,0.3); from_env string parsing and the CDN status mapping as listed per harness.")
 _c("C16",
    "Bounded model checking of ZBSDIFF build->apply on all (old,new) pairs of the stated small lengths with symbolic bytes: "
    "apply(old, build(old,new)) == new for the builders, memory patcher == streaming patcher, and result length == header size or Err "
